@@ -74,12 +74,12 @@ pub fn monotone_siblings() -> Result<u64, Violation> {
     for &version in &[3u8, 4u8] {
         for &n in &[80usize, 150] {
             let name = |i: usize| format!("/piv/a{:04}", i);
-            let mut ops = vec![Op::CreateStorage { p: raw("/piv".into()) }, Op::CreateStream { p: raw("/piv/m".into()), data: DataSpec { len: 33, seed: 1 } }];
+            let mut ops = vec![Op::CreateStorage { p: raw("/piv".into()) }, Op::CreateStream { p: raw("/piv/m0000".into()), data: DataSpec { len: 33, seed: 1 } }];
             for i in 0..n {
                 ops.push(Op::CreateStream { p: raw(name(i)), data: DataSpec { len: (i as u32 * 7) % 90, seed: i as u8 } });
             }
-            ops.push(Op::CreateStream { p: raw("/piv/z".into()), data: DataSpec { len: 5, seed: 2 } });
-            ops.push(Op::RemoveStream { p: raw("/piv/m".into()) });
+            ops.push(Op::CreateStream { p: raw("/piv/z0000".into()), data: DataSpec { len: 5, seed: 2 } });
+            ops.push(Op::RemoveStream { p: raw("/piv/m0000".into()) });
             ops.push(Op::List { p: raw("/piv".into()) });
             for i in (0..n).step_by(9) {
                 ops.push(Op::ReadAll { p: raw(name(i)) });
@@ -87,7 +87,7 @@ pub fn monotone_siblings() -> Result<u64, Violation> {
             ops.push(Op::Reopen { strict: true });
             ops.push(Op::RemoveStream { p: raw(name(n - 1)) });
             ops.push(Op::Walk);
-            ops.push(Op::CreateStream { p: raw("/piv/m".into()), data: DataSpec { len: 40, seed: 3 } });
+            ops.push(Op::CreateStream { p: raw("/piv/m0000".into()), data: DataSpec { len: 40, seed: 3 } });
             ops.push(Op::Exists { p: raw(name(n - 2)) });
             let case = Case { version, max_buf: None, start: Start::Fresh, pool: vec![], ops };
             let o = Oracles { dump_every: 0, final_reopen: true, checker_every: 1, ..Oracles::default() };
